@@ -134,6 +134,16 @@ func (x *Exec) foreignCall(fr *Frame, st *State, ev *CallEvent, sig *types.Signa
 	}
 	x.havocHeap(st, "foreign call "+ev.Desc)
 	rs := x.freshResults(st, sig)
+	if ev.Kind == "invoke" {
+		// assumed interface contract: an iterator-returning method of
+		// ociregistry.Interface never returns a nil Seq
+		for i := 0; i < sig.Results().Len(); i++ {
+			if n, ok := sig.Results().At(i).Type().(*types.Named); ok && n.Obj().Name() == "Seq" {
+				st.assume(Not(Eq(Term{fmt.Sprintf("(fid %s)", rs[i].T.S), "Int"}, IntLit(0))))
+				x.funcsUsed["assume:interface contract: methods returning ociregistry.Seq never return a nil iterator"] = true
+			}
+		}
+	}
 	ev.Results = rs
 	st.calls = append(st.calls, ev)
 	x.ownResults(st, ev, sig, rs)
@@ -746,6 +756,25 @@ func (x *Exec) isYield(fn Val) bool {
 
 func (x *Exec) yieldCall(fr *Frame, st *State, cc *ssa.CallCommon, fn Val, args []Val, k func(*State, Val)) {
 	x.oblige(st, "SEQ", "yield-after-stop("+x.posText(cc.Pos())+")", Not(st.stopped), "consumer called again after it declined further items or an error was delivered")
+	if x.ctr != nil {
+		for _, yr := range x.ctr.YieldReq {
+			env := &Env{x: x, st: st, vars: map[string]Val{}, pkg: x.pkgOf(x.fn), fr: nil}
+			for i, pn := range yr.Params {
+				if i < len(args) {
+					env.vars[pn] = args[i]
+				}
+			}
+			// names of the entry function (parameters / captured variables)
+			for n, v := range x.entryNames(st) {
+				if _, ok := env.vars[n]; !ok {
+					env.vars[n] = v
+				}
+			}
+			for _, c := range yr.Req {
+				x.oblige(st, "CALL", "yield-pre("+c.Src+")@"+x.posText(cc.Pos()), x.evalBool(env, c.Expr), "precondition on the values handed to the consumer")
+			}
+		}
+	}
 	ret := x.freshVal(st, "yield_ret", types.Typ[types.Bool])
 	stop := Not(ret.T)
 	if len(args) >= 2 && args[len(args)-1].T.Sort == "Iface" {
